@@ -377,7 +377,16 @@ def run(ck):
     objs = ck.libmp_objects(flags=tuple(SAN_FLAGS))
     exe = ck.link('h_nlread', ck.objects([os.path.join(VERIF, 'harness', 'h_nlread.cc')], flags=tuple(SAN_FLAGS), tag='c02h') + objs,
                   flags=SAN_FLAGS)
-    drv = ck.driver('drv_c02')
+    try:
+        drv = ck.driver('drv_c02')
+    except RuntimeError as e:
+        # the model no longer builds (e.g. a generated definition it consumes vanished because the code changed):
+        # that is a broken proof obligation, reported from `failing` below; still search the IMPLEMENTATION for a
+        # failing input with the header-consistency oracle, which does not need the model
+        drv = None
+        proof_ok = False
+        failing.append('model driver drv_c02 does not build: ' + str(e)[-400:])
+        ck.log('model driver does not build: correspondence skipped, implementation-side oracle still runs')
     ck.log('harness + driver built')
     cov = {}
     cases = build_cases(ck, T, cov)
@@ -413,9 +422,13 @@ def run(ck):
     ck.log('harness: %d ops, %d sanitizer aborts, %.1fs' % (n_ops, len(aborts), time.time() - t0))
     t0 = time.time()
     mo = os.path.join(work, 'model.out')
-    with open(ops_path) as fi, open(mo, 'w') as fo:
-        p = subprocess.run([drv], stdin=fi, stdout=fo, stderr=subprocess.PIPE)
-    model = open(mo).read().split('\n')
+    if drv is None:
+        model = ['' for _ in range(n_ops + 1)]
+        p = subprocess.CompletedProcess([], 0, b'', b'')
+    else:
+        with open(ops_path) as fi, open(mo, 'w') as fo:
+            p = subprocess.run([drv], stdin=fi, stdout=fo, stderr=subprocess.PIPE)
+        model = open(mo).read().split('\n')
     ck.log('model driver: %.1fs' % (time.time() - t0))
     # OS-level failures of the file path (outside the model): the real call must end in an exception
     for j in (n_ops - 2, n_ops - 1):
@@ -518,7 +531,9 @@ def run(ck):
             if v != 'skip' and v != i_out and not v.startswith('exc:'):
                 ck.add_violation('problem-builder-differs', '%s run ended %s, recorder %s on %r' % (key, v, i_out, d[:60]), replay_obj(i, {'impl': il[:600]}))
         # correspondence
-        if m_out.startswith('ub:'):
+        if drv is None:
+            pass
+        elif m_out.startswith('ub:'):
             ck.add_violation('model-predicts-ub-not-observed:' + m_out, 'model says %s but the real run ended %s on %r' % (m_out, i_out, d[:80]),
                              replay_obj(i, {'impl': il[:600], 'model': ml[:600]}), found_input=False)
         elif i_head + ' | ' + i_evs.strip() != (m_head + ' | ' + m_evs.strip()):
@@ -613,7 +628,7 @@ def run(ck):
         j = len(cases) + k
         if truncated_at is not None and j >= truncated_at:
             continue
-        if impl.get(j) != model[j]:
+        if drv is not None and impl.get(j) != model[j]:
             bad_strtod += 1
             ck.add_violation('model-differs:strtod', 'strtod model differs on %r: impl %s model %s' % (s, impl.get(j), model[j]),
                              {'op': 'strtod %s' % s.hex()}, found_input=False)
